@@ -74,7 +74,9 @@ def one(ctx, C, LP, Fc, klass, fam, seedv, tol):
     ctx.case([Fc, seedv, tol], True, {"n": n, "class": klass, "family": fam, "seed": seedv, "tol": tol, "outcome": out[0], "F": Fc[:5]})
     replay = {"F": Fc, "seed_vector": seedv, "tol": tol, "class": klass, "in_family": fam}
     if out[0] != "ok":
-        if fam:
+        if fam and tol < 1e-6:
+            ctx.count("family-raise-at-tol-below-default")      # the family clause is about the default tol (1e-6) or looser
+        elif fam:
             ctx.count("family-raise")
             sig = root_signature(Fc)
             replay["root_signature"] = sig
